@@ -8,8 +8,8 @@ CHECKS = {
  "C11": ("exploration", "history monitor: every result in long-lived processes vs the same call as first call of a fresh process; returned buffers re-hashed; pool-reuse counters prove collisions",
          "All ordered pairs of a 43-entry core plus random call sequences (length 3..30) over a catalogue built to collide in every pool (Encode/Decode, animation, mux, the public sharpyuv functions, readers that work on the caller's own bytes), with GC disabled (pooled objects survive) or forced between calls; any deviation from the fresh-process reference or any change to a previously returned buffer is a violation.",
          "Pool hook H4 counts actual reuse; a run in which some pool was never hit fails as 'observed nothing'.", "3/C11"),
- "C13": ("exploration", "three-build differential (AVX2 / SSE2 / portable overlay build) on pipeline digests + cross-compilation of the module for GOOS/GOARCH targets",
-         "The same case list is executed by three builds of the current tree and all digests must coincide; go build ./... is run for 14 representative targets in quick and for every `go tool dist list` pair in thorough.",
+ "C13": ("exploration", "four-build differential (AVX2 / SSE2 / portable overlay build / js-wasm build run by node) on pipeline digests + kernel-level exerciser + cross-compilation of the module for GOOS/GOARCH targets",
+         "The same case list is executed by three amd64 builds of the current tree (assembly with AVX2, assembly without, portable overlay) and, for a fixed fraction of the cases, by a js/wasm build under node; all digests must coincide; go build ./... is run for 14 representative targets in quick and for every `go tool dist list` pair in thorough.",
          "arm64 assembly and 32-bit targets are compile-checked only (cannot execute here).", "3/C13"),
  "C06": ("exploration", "hooked-state monitor: encoder reconstruction planes (per-pass hook) vs three decoders' pre-deblocking output",
          "A build-tag hook exports the planes the encoder used as prediction reference after the pass whose tokens are emitted (and again at return); they must equal libwebp's bypass_filtering output, x/image's unfiltered output and, for filter-off streams, webp.Decode, bit for bit, over the lossy option space incl. multi-pass/target-size and forced worker counts.",
